@@ -52,6 +52,15 @@ def check_vars(declared, got, path, problems, findings):
             for at in d["attrs"]:
                 if at.lower() not in [x.lower().replace(" ", "") for x in a["attribs"]]:
                     problems.append({"path": path + [c["name"]], "field": "attribs", "declared": at, "ford": a["attribs"]})
+    if declared.get("k") in ("KSubroutine", "KFunction") and "args" in declared and "args" in got:
+        if [a.lower() for a in declared["args"]] != [a.lower() for a in got["args"]]:
+            problems.append({"path": path, "field": "argument list", "declared": declared["args"], "ford": got["args"]})
+        if declared["k"] == "KFunction" and (declared.get("result") or declared["name"]).lower() != str(got.get("result")).lower():
+            problems.append({"path": path, "field": "result name", "declared": declared.get("result") or declared["name"],
+                             "ford": got.get("result")})
+        for at in declared.get("attrs", []):
+            if at.lower() not in [x.lower() for x in got.get("attribs", [])]:
+                problems.append({"path": path, "field": "procedure attributes", "declared": at, "ford": got.get("attribs")})
     gc = {(c.get("k"), c["name"].lower()): c for c in got["children"] if "k" in c}
     for c in declared["children"]:
         if "k" in c:
